@@ -9,7 +9,6 @@
 //! full projected state (through the verif-hooks accessors). No expected value is
 //! computed here: judging the records is the specification's job.
 
-use std::io::Write as _;
 use std::panic::{catch_unwind, AssertUnwindSafe};
 
 use embedded_cli::{
@@ -170,13 +169,17 @@ fn project(cli: &TestCli) -> Value {
     let (line, cur) = cli.__verif_line();
     #[allow(unused_mut)]
     let mut hist: Vec<Value> = vec![];
-    #[allow(unused_mut)]
-    let mut nav: i64 = 0;
     #[cfg(feature = "history")]
-    {
+    let nav: i64 = {
         let n = cli.__verif_history(|e| hist.push(json!(e)));
-        nav = if n == usize::MAX { -1 } else { n as i64 };
-    }
+        if n == usize::MAX {
+            -1
+        } else {
+            n as i64
+        }
+    };
+    #[cfg(not(feature = "history"))]
+    let nav: i64 = 0;
     json!({
         "line": line,
         "cur": if cur == usize::MAX { -1 } else { cur as i64 },
@@ -239,17 +242,26 @@ fn record(
         "sid": sid,
         "i": i,
         "b": b,
-        "chunks": chunks_json(chunks),
-        "p": p,
-        "hs": {"chunks": chunks_json(&hs.chunks), "setp": hs.prompt >= 0, "p": hs_p},
-        "fail": fail_json(fail.0, fail.1),
         "fired": sink.faults_fired(),
-        "nops": sink.op_count(),
         "res": if res_ok { "ok" } else { "err" },
         "ops": ops_to_json(&ops),
         "calls": calls,
         "st": cli.map(project).unwrap_or(json!({"line": [], "cur": 0, "hist": [], "nav": 0, "prompt": []})),
     });
+    // optional fields (absent = default) keep the traces small
+    if !chunks.is_empty() || ev == "write" {
+        rec["chunks"] = chunks_json(chunks);
+    }
+    if ev == "prompt" || ev == "init" {
+        rec["p"] = json!(p);
+    }
+    if !hs.chunks.is_empty() || hs.prompt >= 0 {
+        rec["hs"] = json!({"chunks": chunks_json(&hs.chunks), "setp": hs.prompt >= 0, "p": hs_p});
+    }
+    if fail.1 != FailMode::None {
+        rec["fail"] = fail_json(fail.0, fail.1);
+        rec["nops"] = json!(sink.op_count());
+    }
     if opts.raw {
         if let Some(cli) = cli {
             rec["raw"] = raw_state(cli);
